@@ -217,7 +217,7 @@ plan("C14", Q, cyclic_q + [R("full-dbg", "cyclic", 3, 3, depth=6, faults=1), R("
 plan("C14", T, cyclic_t + [R("full-rel", "fin", 3, 3, depth=12, fin_menu="0,1,17", max_seconds=MID), R("full-rel", "cyclic", 3, 3, depth=8, faults=1, max_seconds=MID), R("nofin-rel", "cyclic", 3, 3, depth=8, faults=1, max_seconds=MID)])
 
 # ---- C16 saturation -----------------------------------------------------------------------------------------------------------
-plan("C16", Q, [R("full-dbg", "sat", 1, 2, depth=6, sat_k=1), R("full-rel", "sat", 2, 2, depth=6, sat_k=1), R("full-rel", "sat", 1, 2, depth=9, sat_k=0, w=1, fin_menu="0,1")])
+plan("C16", Q, [R("full-dbg", "sat", 1, 2, depth=6, sat_k=1), R("full-rel", "sat", 2, 2, depth=6, sat_k=1), R("full-rel", "sat", 1, 2, depth=8, sat_k=0, w=1, fin_menu="0,1")])
 plan("C16", T, [R("full-rel", "sat", 1, 2, depth=11, sat_k=1, w=1, fin_menu="0,1", max_seconds=MID), R("full-dbg", "sat", 1, 2, depth=8, sat_k=2), R("full-rel", "sat", 2, 2, depth=8, sat_k=2, max_seconds=MID), R("nofin-rel", "sat", 1, 2, depth=7, sat_k=1)])
 
 # ---- C20a address stability / ptr_eq (forwarding impls: separate enumeration engine) --------------------------------------------
